@@ -72,6 +72,15 @@ class NamingMap:
                 return item.kind == 'canonical'
         raise OutOfSubset(f'`in` {self.which} for {type(item).__name__}')
 
+    def get(self, item, default=None):
+        # dict.get: the stored value for a name the map contains, else the default
+        if self.which == 'canon2bin':
+            if isinstance(item, CanonName):
+                return item.k
+            if isinstance(item, InvalidName):
+                return default
+        raise OutOfSubset(f'{self.which}.get for {type(item).__name__}')
+
 
 class InvalidName:
     """f'e{2 ** d}': the out-of-space marker _blade2canon returns for unknown generators."""
